@@ -18,7 +18,18 @@ type chanState struct {
 	vcRecv  vclock
 }
 
-func chanKey(ch interface{}) uintptr { return reflect.ValueOf(ch).Pointer() }
+// chanKey identifies a channel by its address. The channel is pinned until the end of the
+// execution: without the reference the collector may free it and hand the address to a new
+// channel, which would inherit the old one's identity and modelled state.
+func chanKey(ch interface{}) uintptr {
+	p := reflect.ValueOf(ch).Pointer()
+	if x := cx; x != nil && p != 0 {
+		if _, ok := x.chanPins[p]; !ok {
+			x.chanPins[p] = ch
+		}
+	}
+	return p
+}
 
 func (x *Exec) chanSt(key uintptr) *chanState {
 	st := x.chans[key]
